@@ -162,7 +162,7 @@ var alphaJS = engine.Atoms(
 	" ", "\t", "\v", "\f", "\n", "\r", "\x00", "!", "\"", "#", "$", "%", "&", "'", "(", ")", "*", "+", ",", "-", ".", "/",
 	":", ";", "<", "=", ">", "?", "@", "[", "\\", "]", "^", "_", "`", "{", "|", "}", "~",
 	"0", "1", "7", "8", "9", "a", "b", "e", "E", "n", "o", "x", "X", "u", "f",
-	"é", "\u00a0", "\ufeff", "\u2028", "\u2029", "\u200c", "😀", "\xc3", "\xe2", "\xf0",
+	"é", "\u00a0", "\ufeff", "\u2028", "\u2029", "\u200c", "😀", "\xc3", "\xe2", "\xf0", "\u00b7", "\u0301",
 	"let", "var", "const", "function", "async", "await", "yield", "class", "static", "get", "set", "new", "in", "of",
 	"if", "else", "for", "while", "do", "return", "import", "export", "from", "as", "default", "extends", "super", "this",
 	"typeof", "delete", "void", "=>", "...", "?.", "??", "**", "++", "--", "${", "//", "/*", "*/", "<!--", "-->", "#!")
